@@ -4,11 +4,12 @@ package main
 // only known after running the real kfake) and then emits, for EVERY prefix of the fs operation sequence, the
 // tail choices: all kept, all lost, and per file with an unsynced tail: only that file kept in full, plus cuts of
 // that file (one random cut in the quick tier, every cut in the thorough tier) with the other tails kept / lost.
-// Second generation: for sampled first crashes (all torn ones first) a continuation workload, crashes of it, and
-// a clean Close + restart.
+// Lineages: 2..4 generations in every order of clean Close / crash (with tail loss), with and without segment rolls,
+// sampled crash points of every generation, and a produce + read back after the last restart.
 
 import (
 	"fmt"
+	"strings"
 
 	"verifharness/hx"
 )
@@ -88,27 +89,75 @@ func choices(r *hx.Rng, ops []op, base *cfs, thorough bool) []crashChoice {
 	return out
 }
 
+// pick draws a crash choice for the end of a generation: the end of the trace with everything kept (all requests
+// acknowledged and durable), a torn choice, or any choice.
+func pickStop(r *hx.Rng, cs []crashChoice, end int) crashChoice {
+	var torn []crashChoice
+	for _, c := range cs {
+		if c.torn {
+			torn = append(torn, c)
+		}
+	}
+	switch k := r.Intn(100); {
+	case k < 35 || len(cs) == 0:
+		return crashChoice{end, "K", false}
+	case k < 75 && len(torn) > 0:
+		return torn[r.Intn(len(torn))]
+	default:
+		return cs[r.Intn(len(cs))]
+	}
+}
+
+// every order of clean close (C) and crash (X) over 2..4 generations; the ones with a crash after a close first
+func patterns() []string {
+	var out, rest []string
+	for n := 2; n <= 4; n++ {
+		for m := 0; m < 1<<n; m++ {
+			p := ""
+			for i := 0; i < n; i++ {
+				if m>>i&1 == 1 {
+					p += "X"
+				} else {
+					p += "C"
+				}
+			}
+			if strings.Contains(p, "CX") {
+				out = append(out, p)
+			} else {
+				rest = append(rest, p)
+			}
+		}
+	}
+	return append(out, rest...)
+}
+
 func gen(a hx.Args) {
 	r := hx.NewRng(a.Seed)
 	thorough := a.Tier == "thorough"
 	run := &runner{memo: map[string][]op{}}
-	defer func() { run.cur.stop() }()
-	nW := a.N(3, 8)
+	defer func() { run.live.stop() }()
+	tok := func(s string) bool { return len(s) >= 2 && s[:2] == "T " }
+
+	// A. every prefix of a generation-1 workload x tail choices
+	nW := a.N(3, 6)
 	for wi := 0; wi < nW; wi++ {
 		wseed := r.U64() % 1000000000
 		n := 5 + r.Intn(6)
-		if thorough && wi < 3 {
+		if thorough && wi < 2 {
 			n = 3 + r.Intn(3) // small workloads, every cut of every tail
 		}
-		res := run.reset(wseed, n)
-		if len(res) < 2 || res[:2] != "T " {
-			hx.Emit("reset %d %d", wseed, n) // the run will report the same failure
+		flags := "m"
+		if wi%2 == 1 {
+			flags = "mr"
+		}
+		if !tok(run.reset(wseed, n, flags)) {
+			hx.Emit("reset %d %d %s", wseed, n, flags) // the run will report the same failure
 			continue
 		}
-		cs := choices(r, run.ops1, newCFS(), thorough && wi < 3)
+		cs := choices(r, run.trace, newCFS(), thorough && wi < 2)
 		if wi > 0 { // the start-up phase (initial saveToDisk) is the same in every workload: enumerate it once
 			first := 0
-			for i, o := range run.ops1 {
+			for i, o := range run.trace {
 				if o.kind == opMark {
 					first = i
 					break
@@ -124,66 +173,76 @@ func gen(a hx.Args) {
 		}
 		for i, c := range cs {
 			if i%40 == 0 {
-				hx.Emit("reset %d %d", wseed, n)
+				hx.Emit("reset %d %d %s", wseed, n, flags)
 			}
-			hx.Emit("crash %d %s w%d", c.k, c.tail, wseed)
+			hx.Emit("peek %d %s w%d", c.k, c.tail, wseed)
 		}
-		// second generation
-		var torn, rest []crashChoice
-		for _, c := range cs {
-			if c.torn {
-				torn = append(torn, c)
-			} else {
-				rest = append(rest, c)
+	}
+
+	// B. lineages of 2..4 generations in every order of clean close / crash, with and without segment rolls; sampled
+	// crash points of every generation (peek), a produce + read after the last restart (probe)
+	pats := patterns()
+	nL := a.N(56, 300)
+	off := int(a.Seed % uint64(len(pats)))
+	for li := 0; li < nL; li++ {
+		pat := pats[(li+off)%len(pats)]
+		if li < 6 { // always some close -> crash lineages, whatever the rotation
+			pat = pats[li%6]
+		}
+		flags := "-"
+		if r.Chance(35) {
+			flags = "r"
+		}
+		wseed := r.U64() % 1000000000
+		n := 3 + r.Intn(5)
+		id := fmt.Sprintf("L%d.%s.%d", li, pat, wseed)
+		hx.Emit("reset %d %d %s %s", wseed, n, flags, id)
+		if !tok(run.reset(wseed, n, flags)) {
+			continue
+		}
+		ok := true
+		for gi, stop := range pat {
+			if gi > 0 {
+				w2 := r.U64() % 1000000000
+				n2 := 2 + r.Intn(5)
+				hx.Emit("cont %d %d %s.g%d", w2, n2, id, gi)
+				if !tok(run.cont(w2, n2)) {
+					ok = false
+					break
+				}
 			}
-		}
-		nTorn, nRest := 10, 3
-		if thorough {
-			nTorn, nRest = 40, 8
-		}
-		var picks []crashChoice
-		for i := 0; i < nTorn && len(torn) > 0; i++ {
-			j := r.Intn(len(torn))
-			picks = append(picks, torn[j])
-			torn = append(torn[:j], torn[j+1:]...)
-		}
-		for i := 0; i < nRest && len(rest) > 0; i++ {
-			j := r.Intn(len(rest))
-			picks = append(picks, rest[j])
-			rest = append(rest[:j], rest[j+1:]...)
-		}
-		if len(rest) > 0 { // always: the complete first generation, nothing lost
-			picks = append(picks, rest[len(rest)-1])
-		}
-		for _, c := range picks {
-			w2 := r.U64() % 1000000000
-			n2 := 3 + r.Intn(5)
-			hx.Emit("reset %d %d", wseed, n)
-			hx.Emit("crash %d %s w%d", c.k, c.tail, wseed)
-			hx.Emit("cont %d %d", w2, n2)
-			run.reset(wseed, n)
-			run.crash(c.k, c.tail)
-			if run.cur == nil {
-				continue
-			}
-			if t := run.cont(w2, n2); len(t) < 2 || t[:2] != "T " {
-				continue
-			}
-			cs2 := choices(r, run.ops2, run.curImg, false)
-			max2 := 10
+			cs := choices(r, run.trace, run.base, false)
+			end := len(run.trace)
+			// crash points of this generation that do not advance the lineage
+			np := 3
 			if thorough {
-				max2 = 40
+				np = 8
 			}
-			// always the end of the second generation with everything synced kept / unsynced lost
-			end := len(run.ops2)
-			hx.Emit("crash2 %d K w%d.%d.%s.%d", end, wseed, c.k, c.tail, w2)
-			hx.Emit("crash2 %d L w%d.%d.%s.%d", end, wseed, c.k, c.tail, w2)
-			for i := 0; i < max2 && len(cs2) > 0; i++ {
-				j := r.Intn(len(cs2))
-				hx.Emit("crash2 %d %s w%d.%d.%s.%d", cs2[j].k, cs2[j].tail, wseed, c.k, c.tail, w2)
-				cs2 = append(cs2[:j], cs2[j+1:]...)
+			if gi > 0 {
+				hx.Emit("peek e K %s.g%d", id, gi)
+				hx.Emit("peek e L %s.g%d", id, gi)
+				for i := 0; i < np && len(cs) > 0; i++ {
+					c := cs[r.Intn(len(cs))]
+					hx.Emit("peek %d %s %s.g%d", c.k, c.tail, id, gi)
+				}
 			}
-			hx.Emit("close2 w%d.%d.%s.%d", wseed, c.k, c.tail, w2)
+			if stop == 'C' {
+				hx.Emit("close %s.g%d", id, gi)
+				if run.close(); run.live == nil {
+					ok = false
+					break
+				}
+			} else {
+				c := pickStop(r, cs, end)
+				hx.Emit("crash %d %s %s.g%d", c.k, c.tail, id, gi)
+				if run.crash(c.k, c.tail); run.live == nil {
+					ok = false
+					break
+				}
+			}
+		}
+		if ok {
+			hx.Emit("probe %s", id)
 		}
 	}
 }
